@@ -134,6 +134,24 @@ fn main() {
         std::panic::set_hook(Box::new(|_| {}));
     }
     match args[1].as_str() {
+        "miri" => {
+            // mmsim miri <population> <seed> <from> <to>: run the programs freely (baton off)
+            let pop = args.get(2).map(|s| s.as_str()).unwrap_or("thr-mixed").to_string();
+            let seed: u64 = args.get(3).and_then(|s| s.parse().ok()).unwrap_or(7);
+            let from: u64 = args.get(4).and_then(|s| s.parse().ok()).unwrap_or(0);
+            let to: u64 = args.get(5).and_then(|s| s.parse().ok()).unwrap_or(1);
+            let mut bad = 0;
+            for run in from..to {
+                let t = generate(&pop, seed, run);
+                let problems = thr::run_free(&t);
+                for p in &problems {
+                    println!("MIRI-SCENARIO {} {} {}: {}", pop, seed, run, p);
+                    bad += 1;
+                }
+            }
+            println!("miri scenarios {}..{} of {} done, {} problems", from, to, pop, bad);
+            std::process::exit(if bad > 0 { 1 } else { 0 });
+        }
         "gen" => {
             let pop = gen_pop(&args);
             let seed: u64 = arg(&args, "--seed").unwrap_or("1").parse().unwrap();
